@@ -1,9 +1,183 @@
 import DspVerif.Driver.Proto
-/-! driver handlers for C17 (stub: no correspondence cases handled yet) -/
+import DspVerif.Model.MathFns
+/-! driver handlers for C17: runs `Model/MathFns` at `Float` on one correspondence case -/
 namespace Dsp.Driver
-open Dsp.Proto
+open Dsp.Proto Dsp.MathFns
+
+namespace H17
+
+abbrev F := Float
+abbrev Z := Cx Float
+
+def fmtC (z : Z) : String := fmtF z.re ++ " " ++ fmtF z.im
+
+def fmtE {β : Type} (f : β → String) : Except String β → String
+  | .ok v => f v
+  | .error _ => "ERR"
+
+/-- real → real -/
+def rr (f : F → F) : List String → Option String
+  | [x] => do let x ← parseF x; some (fmtF (f x))
+  | _ => none
+/-- real → complex -/
+def rc (f : F → Z) : List String → Option String
+  | [x] => do let x ← parseF x; some (fmtC (f x))
+  | _ => none
+/-- complex → real -/
+def cr (f : Z → F) : List String → Option String
+  | [a, b] => do let a ← parseF a; let b ← parseF b; some (fmtF (f ⟨a, b⟩))
+  | _ => none
+/-- complex → complex -/
+def cc (f : Z → Z) : List String → Option String
+  | [a, b] => do let a ← parseF a; let b ← parseF b; some (fmtC (f ⟨a, b⟩))
+  | _ => none
+/-- arrays -/
+def vrr (f : F → F) (args : List String) : Option String := do
+  let (x, _) ← takeFloats args; some (fmtFloatArr (x.map f))
+def vrc (f : F → Z) (args : List String) : Option String := do
+  let (x, _) ← takeFloats args; some (fmtCxArr (x.map f))
+def vcr (f : Z → F) (args : List String) : Option String := do
+  let (x, _) ← takeCxs args; some (fmtFloatArr (x.map f))
+def vcc (f : Z → Z) (args : List String) : Option String := do
+  let (x, _) ← takeCxs args; some (fmtCxArr (x.map f))
+/-- real array → real / complex array → complex|real -/
+def redR (f : Array F → F) (args : List String) : Option String := do
+  let (x, _) ← takeFloats args; some (fmtF (f x))
+def redC (f : Array Z → Z) (args : List String) : Option String := do
+  let (x, _) ← takeCxs args; some (fmtC (f x))
+def redCR (f : Array Z → F) (args : List String) : Option String := do
+  let (x, _) ← takeCxs args; some (fmtF (f x))
+
+def zeroF : F := 0.0
+def zeroZ : Z := ⟨0.0, 0.0⟩
+
+def toNatF (c : F) : Nat := c.toUInt64.toNat
+
+end H17
+open H17
 
 def h17 : List String → Option String
+  -- real-argument elementary functions
+  | "abs" :: a => rr Fn.abs a
+  | "round" :: a => rr Fn.round a
+  | "expj" :: a => rc expj a
+  | "tanh" :: a => rr Fn.tanh a
+  | "deg2rad" :: a => rr deg2rad a
+  | "rad2deg" :: a => rr rad2deg a
+  | "rabs2" :: a => rr (fun x => x * x) a
+  | "exp" :: a => rr Fn.exp a
+  | "log" :: a => rr Fn.log a
+  | "log2" :: a => rr MathFns.log2 a
+  | "log10" :: a => rr Fn.log10 a
+  | "pow2db" :: a => rr pow2db a
+  | "mag2db" :: a => rr mag2db a
+  | "db2pow" :: a => rr db2pow a
+  | "db2mag" :: a => rr db2mag a
+  | "v.abs" :: a => vrr Fn.abs a
+  | "v.round" :: a => vrr Fn.round a
+  | "v.expj" :: a => vrc expj a
+  | "v.tanh" :: a => vrr Fn.tanh a
+  | "v.deg2rad" :: a => vrr deg2rad a
+  | "v.rad2deg" :: a => vrr rad2deg a
+  | "v.rabs2" :: a => do let (x, _) ← takeFloats a; some (fmtFloatArr (rpowiArr x 2))
+  | "v.exp" :: a => vrr Fn.exp a
+  | "v.log" :: a => vrr Fn.log a
+  | "v.log2" :: a => vrr MathFns.log2 a
+  | "v.log10" :: a => vrr Fn.log10 a
+  | "v.pow2db" :: a => vrr pow2db a
+  | "v.mag2db" :: a => vrr mag2db a
+  | "v.db2pow" :: a => vrr db2pow a
+  | "v.db2mag" :: a => vrr db2mag a
+  -- complex-argument functions
+  | "cabs" :: a => cr cabs a
+  | "abs2" :: a => cr Cx.abs2 a
+  | "angle" :: a => cr angle a
+  | "cround" :: a => cc cround a
+  | "conj" :: a => cc Cx.conj a
+  | "cexp" :: a => cc cexp a
+  | "ctanh" :: a => cc ctanh a
+  | "v.cabs" :: a => vcr cabs a
+  | "v.abs2" :: a => vcr Cx.abs2 a
+  | "v.angle" :: a => vcr angle a
+  | "v.cround" :: a => vcc cround a
+  | "v.conj" :: a => vcc Cx.conj a
+  | "v.cexp" :: a => vcc cexp a
+  | "v.real" :: a => do let (x, _) ← takeCxs a; some (fmtFloatArr (realArr x))
+  | "v.imag" :: a => do let (x, _) ← takeCxs a; some (fmtFloatArr (imagArr x))
+  | "v.complex" :: a => do
+    let (re, rest) ← takeFloats a
+    let (im, _) ← takeFloats rest
+    some (fmtE fmtCxArr (complexArr re im))
+  -- power overloads
+  | ["rpow", x, n] => do let x ← parseF x; let n ← parseF n; some (fmtF (rpow x n))
+  | "v.rpow_sv" :: x :: a => do let x ← parseF x; let (n, _) ← takeFloats a; some (fmtFloatArr (n.map (rpow x)))
+  | "v.rpow_vs" :: n :: a => do let n ← parseF n; let (x, _) ← takeFloats a; some (fmtFloatArr (x.map (fun v => rpow v n)))
+  | ["rpowi", x, n] => do let x ← parseF x; let n ← parseI n; some (fmtF (rpowi x n))
+  | "v.rpowi" :: n :: a => do let n ← parseI n; let (x, _) ← takeFloats a; some (fmtFloatArr (rpowiArr x n))
+  | ["cpow", a, b, n] => do let a ← parseF a; let b ← parseF b; let n ← parseF n; some (fmtC (cpow ⟨a, b⟩ n))
+  | ["cpowi", a, b, n] => do let a ← parseF a; let b ← parseF b; let n ← parseI n; some (fmtC (cpowi ⟨a, b⟩ n))
+  | "v.cpowi" :: n :: a => do let n ← parseI n; let (x, _) ← takeCxs a; some (fmtCxArr (cpowiArr x n))
+  -- reductions
+  | "sum" :: a => redR sum a
+  | "csum" :: a => redC csum a
+  | "mean" :: a => redR mean a
+  | "cmean" :: a => redC cmean a
+  | "rms" :: a => redR rms a
+  | "crms" :: a => redCR crms a
+  | "stddev" :: a => redR stddev a
+  | "cstddev" :: a => redCR cstddev a
+  | "cumsum" :: rev :: a => do let (x, _) ← takeFloats a; some (fmtFloatArr (cumsum x (rev == "1")))
+  | "ccumsum" :: rev :: a => do let (x, _) ← takeCxs a; some (fmtCxArr (cumsum x (rev == "1")))
+  | "dot" :: a => do
+    let (x, rest) ← takeFloats a
+    let (y, _) ← takeFloats rest
+    some (fmtE fmtF (dot x y))
+  | "cdot" :: a => do
+    let (x, rest) ← takeCxs a
+    let (y, _) ← takeCxs rest
+    some (fmtE fmtC (cdot x y))
+  | "norm" :: p :: a => do let p ← parseI p; let (x, _) ← takeFloats a; some (fmtF (norm x p))
+  | "cnorm" :: p :: a => do let p ← parseI p; let (x, _) ← takeCxs a; some (fmtF (cnorm x p))
+  | "max" :: a => redR maxR a
+  | "min" :: a => redR minR a
+  | "peak2peak" :: a => redR peak2peakR a
+  | "argmax" :: a => do let (x, _) ← takeFloats a; some (toString (argmax rlt x.toList))
+  | "argmin" :: a => do let (x, _) ← takeFloats a; some (toString (argmin rlt x.toList))
+  | "cmax" :: a => redC maxC a
+  | "cmin" :: a => redC minC a
+  | "cpeak2peak" :: a => redC peak2peakC a
+  | "cargmax" :: a => do let (x, _) ← takeCxs a; some (toString (argmax clt x.toList))
+  | "cargmin" :: a => do let (x, _) ← takeCxs a; some (toString (argmin clt x.toList))
+  -- shape / index functions
+  | "upsample" :: f :: ph :: a => do
+    let f ← parseI f; let ph ← parseI ph; let (x, _) ← takeFloats a
+    some (fmtE fmtFloatArr (upsample zeroF x f ph))
+  | "cupsample" :: f :: ph :: a => do
+    let f ← parseI f; let ph ← parseI ph; let (x, _) ← takeCxs a
+    some (fmtE fmtCxArr (upsample zeroZ x f ph))
+  | "downsample" :: f :: ph :: a => do
+    let f ← parseI f; let ph ← parseI ph; let (x, _) ← takeFloats a
+    some (fmtE fmtFloatArr (downsample zeroF x f ph))
+  | "cdownsample" :: f :: ph :: a => do
+    let f ← parseI f; let ph ← parseI ph; let (x, _) ← takeCxs a
+    some (fmtE fmtCxArr (downsample zeroZ x f ph))
+  | "repelem" :: k :: a => do let k ← k.toNat?; let (x, _) ← takeFloats a; some (fmtFloatArr (repelem x k))
+  | "crepelem" :: k :: a => do let k ← k.toNat?; let (x, _) ← takeCxs a; some (fmtCxArr (repelem x k))
+  | "flip" :: a => do let (x, _) ← takeFloats a; some (fmtFloatArr (flip x))
+  | "cflip" :: a => do let (x, _) ← takeCxs a; some (fmtCxArr (flip x))
+  | "zeropad" :: m :: a => do let m ← parseI m; let (x, _) ← takeFloats a; some (fmtE fmtFloatArr (zeropad zeroF x m))
+  | "czeropad" :: m :: a => do let m ← parseI m; let (x, _) ← takeCxs a; some (fmtE fmtCxArr (zeropad zeroZ x m))
+  | "delayseq" :: d :: a => do let d ← parseI d; let (x, _) ← takeFloats a; some (fmtFloatArr (delayseq zeroF x d))
+  | ["arange", a, b, s] => do
+    let a ← parseI a; let b ← parseI b; let s ← parseI s
+    some (fmtE (fun (r : Array Int) => fmtFloatArr (r.map (fun i => (Fn.ofInt i : Float)))) (arangeInt a b s))
+  | ["farange", a, b, s] => do
+    let a ← parseF a; let b ← parseF b; let s ← parseF s
+    let c := arangeFCount a b s
+    if c < 0 then some "ERR" else some (fmtFloatArr (arangeF a s (toNatF c)))
+  | ["linspace", x1, x2, n] => do
+    let x1 ← parseF x1; let x2 ← parseF x2; let n ← n.toNat?
+    some (fmtE fmtFloatArr (linspace x1 x2 n))
   | _ => none
 
 end Dsp.Driver
